@@ -105,6 +105,7 @@ class Translator:
         self.calls = collections.defaultdict(set)   # cname -> set of callee cnames
         self.func_src = {}                          # cname -> (qualified C++ name, file, line)
         self.fresh_done = {}
+        self.func_decl = {}
         self.virtual_dispatch = {}
         self.curfn = None
         self.loopno = 0
@@ -343,7 +344,9 @@ class Translator:
             base += '__' + '_'.join(self.cident(self.PRIM.get(a, a)) for a in targs)
         sibs = self.funcs_by_qual.get(self.qname(i), [])
         if len(sibs) > 1 and not targs:
-            ps = [re.sub(r'\W+', '_', self.ctype(p['type'])).strip('_') for p in d.get('inner', []) if p.get('kind') == 'ParmVarDecl']
+            # overloads are told apart by their parameter types AS WRITTEN (alias names such as Alm, Rn, StepZIDS), which keeps names short and stable
+            ps = [re.sub(r'\W+', '_', self.norm(p['type'].get('qualType', '')).replace('const', '')).strip('_') or re.sub(r'\W+', '_', self.ctype(p['type'])).strip('_')
+                  for p in d.get('inner', []) if p.get('kind') == 'ParmVarDecl']
             base += '__' + '_'.join(ps)
             if re.search(r'\)\s*const\b', d.get('type', {}).get('qualType', '')): base += '_const'
         if len(base) > 200:
@@ -1441,6 +1444,7 @@ class Translator:
         sig = '%s %s(%s)' % (rett, nm, ', '.join(params) or 'void')
         loc = d.get('loc', {})
         self.func_src[nm] = (self.qname(d['id']), loc.get('file') or loc.get('includedFrom', {}).get('file') or '', loc.get('line') or 0)
+        self.func_decl[nm] = d
         hook = '#ifdef CONTRACT_%s\nCONTRACT_%s\n#endif' % (nm, nm)
         if not body:
             self.protos[nm] = sig + '\n' + hook + '\n;'
@@ -1574,15 +1578,14 @@ class Translator:
             for k, v in self.out_funcs.items(): f.write((v or '') + '\n')
 
     def write_bridge(self, path):
-        """C++ field-by-field converters between the real objects and the extracted C structs (used by replay/bridge_*.cpp)"""
-        out = ['// GENERATED by extract/cxx2c.py -- converters between real C++ objects and the extracted C structs']
-        done = set()
-        def conv(ct, cexpr, xexpr, q, to_c, depth):
-            """returns lines converting one member"""
+        """C++ field-by-field converters between the real objects and the extracted C structs (used by replay/bridge_*.cpp).
+        They are templates on the C++ type, so no C++ type has to be named except base classes (clang's own spelling)."""
+        out = ['// GENERATED by extract/cxx2c.py -- converters between real C++ objects and the extracted C structs', '#ifndef CX', '#define CX(n) ::n', '#endif']
+        def conv(ct, cexpr, xexpr, to_c, depth):
             ind = '    ' * (depth + 1)
             if ct is None: return []
             base = ct.replace('const ', '')
-            if base.endswith('*') or base in ('verif_vec_ptr', 'verif_opaque'):
+            if base.endswith('*') or base in ('verif_vec_ptr', 'verif_opaque', 'verif_string', 'verif_optional'):
                 return [ind + '/* %s: pointer/container member, set by the hand-written part of the bridge */' % cexpr]
             if base == 'verif_fn':
                 return [ind + '%s.set = (bool)%s;' % (cexpr, xexpr)] if to_c else [ind + '/* %s: std::function installed by the bridge */' % xexpr]
@@ -1592,46 +1595,136 @@ class Translator:
             if info and info[0] == 'array':
                 et, n = info[1], info[2]
                 iv = 'i%d' % depth
-                body = conv(et, '%s.e[%s]' % (cexpr, iv), '%s[%s]' % (xexpr, iv), None, to_c, depth + 1)
+                body = conv(et, '%s.e[%s]' % (cexpr, iv), '%s[%s]' % (xexpr, iv), to_c, depth + 1)
                 return [ind + 'for (unsigned %s = 0; %s < %d; ++%s) {' % (iv, iv, n, iv)] + body + [ind + '}']
+            if info and info[0] == 'tuple':
+                return [ind + '/* %s: tuple member */' % cexpr]
             if base in self.records and base in self.rec_cxx:
                 return [ind + ('to_c(%s, &%s);' % (xexpr, cexpr) if to_c else 'from_c(&%s, %s);' % (cexpr, xexpr))]
             return [ind + ('br_get(%s, %s);' % (cexpr, xexpr) if to_c else 'br_set(%s, %s);' % (xexpr, cexpr))]
-        for cn in self.records:
-            cxx = self.rec_cxx.get(cn)
-            info = self.rec_fields.get(cn)
-            if not cxx or not info or info[0] == 'array': continue
-            if '<' in cxx and 'anonymous' in cxx: continue
-            out.append('#ifdef BRIDGE_WANT_%s' % cn)
-            out.append('static void to_c(const %s &x, ::%s *c);' % (cxx, cn))
-            out.append('static void from_c(const ::%s *c, %s &x);' % (cn, cxx))
+        recs = [cn for cn in self.records if self.rec_cxx.get(cn) and self.rec_fields.get(cn) and self.rec_fields[cn][0] not in ('array', 'tuple')]
+        for cn in recs:
+            out.append('#if defined(BRIDGE_WANT_ALL) || defined(BRIDGE_WANT_%s)' % cn)
+            out.append('template <class X> static void to_c(const X &x, CX(%s) *c);' % cn)
+            out.append('template <class X> static void from_c(const CX(%s) *c, X &x);' % cn)
             out.append('#endif')
-        for cn in self.records:
-            cxx = self.rec_cxx.get(cn)
-            info = self.rec_fields.get(cn)
-            if not cxx or not info or info[0] == 'array': continue
+        for cn in recs:
+            info = self.rec_fields[cn]
             for to_c in (True, False):
                 lines = []
                 for f in info:
                     ct, name, q, kind = f
-                    if kind in ('dropped', 'tag'): continue
+                    if kind in ('dropped', 'tag', 'carray'): continue
                     if kind == 'base':
-                        bq = self.rec_cxx.get(ct)
-                        if bq: lines.append('    ' + ('to_c(static_cast<const %s &>(x), &c->%s);' % (bq, name) if to_c else 'from_c(&c->%s, static_cast<%s &>(x));' % (name, bq)))
-                        continue
-                    if kind == 'carray':
+                        # q is clang's spelling of the base class
+                        lines.append('    ' + ('to_c(static_cast<const %s &>(x), &c->%s);' % (q, name) if to_c else 'from_c(&c->%s, static_cast<%s &>(x));' % (name, q)))
                         continue
                     if q and q.endswith('&'):
                         lines.append('    /* %s: reference member, bound by the bridge */' % name); continue
-                    lines += conv(ct, 'c->' + name, 'x.' + name, q, to_c, 0)
-                out.append('#ifdef BRIDGE_WANT_%s' % cn)
+                    lines += conv(ct, 'c->' + name, 'x.' + name, to_c, 0)
+                out.append('#if defined(BRIDGE_WANT_ALL) || defined(BRIDGE_WANT_%s)' % cn)
                 if to_c:
-                    out.append('static void to_c(const %s &x, ::%s *c) {\n    (void)x; (void)c;\n%s\n}' % (cxx, cn, '\n'.join(lines)))
+                    out.append('template <class X> static void to_c(const X &x, CX(%s) *c) {\n    (void)x; (void)c;\n%s\n}' % (cn, '\n'.join(lines)))
                 else:
-                    out.append('static void from_c(const ::%s *c, %s &x) {\n    (void)x; (void)c;\n%s\n}' % (cn, cxx, '\n'.join(lines)))
+                    out.append('template <class X> static void from_c(const CX(%s) *c, X &x) {\n    (void)x; (void)c;\n%s\n}' % (cn, '\n'.join(lines)))
                 out.append('#endif')
         with open(path, 'w') as f:
             f.write('\n'.join(out) + '\n')
+
+    def write_eq(self, path):
+        """deep, loop-free equality predicates eq_<Record>(const R *a, const R *b) for every extracted record (plain C)"""
+        out = ['/* GENERATED by extract/cxx2c.py -- field-by-field equality of the extracted records (loop-free) */']
+        def cmp(ct, a, b):
+            base = (ct or '').replace('const ', '')
+            if not base or base.endswith('*') or base in ('verif_opaque', 'verif_vec_ptr', 'verif_string', 'verif_optional'): return []
+            if base == 'verif_fn': return ['%s.set == %s.set' % (a, b)]
+            if base.startswith('verif_queue_'): return []
+            info = self.rec_fields.get(base)
+            if info and info[0] == 'array':
+                r = []
+                for i in range(info[2]): r += cmp(info[1], '%s.e[%d]' % (a, i), '%s.e[%d]' % (b, i))
+                return r
+            if info and info[0] == 'tuple':
+                r = []
+                for i, et in enumerate(info[1]): r += cmp(et, '%s.e%d' % (a, i), '%s.e%d' % (b, i))
+                return r
+            if base in self.records and info is not None:
+                return ['eq_%s(&%s, &%s)' % (base, a, b)]
+            return ['%s == %s' % (a, b)]
+        for cn in self.records:
+            info = self.rec_fields.get(cn)
+            if not info or info[0] in ('array', 'tuple'): continue
+            terms = []
+            for ct, name, q, kind in info:
+                if kind in ('dropped', 'carray', 'tag'): continue
+                if q and q.endswith('&'): continue
+                terms += cmp(ct, 'a->' + name, 'b->' + name)
+            out.append('static inline bool eq_%s(const %s *a, const %s *b)\n{\n    (void)a; (void)b;\n    return %s;\n}' % (cn, cn, cn, '\n        && '.join(terms) or '1'))
+        with open(path, 'w') as f:
+            f.write('\n'.join(out) + '\n')
+
+    def write_wrappers(self, path, names):
+        """C++ wrappers implementing the extracted-C API of member functions on the real object (see replay/bridge_*.cpp).
+        The hand-written bridge provides BR_LOAD(self), BR_STORE(self) and BR_OBJ(Class) (the real object)."""
+        out = ['// GENERATED by extract/cxx2c.py -- extracted-C API implemented on the real C++ objects']
+        done = []
+        for nm in names:
+            d = self.func_decl.get(nm)
+            if d is None or d.get('kind') not in ('CXXMethodDecl',) or d.get('storageClass') == 'static':
+                out.append('// %s: not a non-static member function, no wrapper' % nm); continue
+            ft = d['type']['qualType']
+            cls = self.owner_type(d)
+            if '<' in cls or (self.opts.get('wrapper_owners') and cls not in self.opts['wrapper_owners']):
+                out.append('// %s: owner %s not bridged, no wrapper' % (nm, cls)); continue
+            ccls = self.ctype_s(cls)
+            const = 'const ' if re.search(r'\)\s*const\b', ft) else ''
+            rq = d['type'].get('desugaredQualType', ft)
+            ret = rq[:rq.index('(')].strip()
+            if ret in ('auto', 'decltype(auto)'): ret = ft[:ft.index('(')].strip()
+            cret = self.ctype_s(ret)
+            params = [p for p in d.get('inner', []) if p.get('kind') == 'ParmVarDecl']
+            cps, pre, args = ['%sCX(%s) *self' % (const, ccls)], [], []
+            ok = True
+            for k, p in enumerate(params):
+                pq = qt(p['type'])
+                ct = self.ctype(p['type'])
+                pn = 'a%d' % k
+                base = ct.replace('const ', '')
+                if base.endswith('*'):
+                    ok = False; break
+                if base in self.records and base in self.rec_cxx:
+                    cps.append('CX(%s) %s' % (base, pn))
+                    pre.append('    %s x%d; from_c(&%s, x%d);' % (pq.replace('const ', ''), k, pn, k))
+                    args.append('x%d' % k)
+                elif base in self.enums:
+                    cps.append('CX(%s) %s' % (base, pn)); args.append('static_cast<%s>(%s)' % (pq.replace('const ', ''), pn))
+                else:
+                    cps.append('%s %s' % (base, pn)); args.append(pn)
+            if not ok or cret.rstrip().endswith('*'):
+                out.append('// %s: pointer/reference parameter or result, no generated wrapper' % nm); continue
+            targs = [a for a in d.get('inner', []) if a.get('kind') == 'TemplateArgument']
+            tsel = ''
+            if targs and all('type' in a for a in targs):
+                tsel = 'template %s<%s>' % (d['name'], ', '.join(qt(a['type']) for a in targs))
+            call = 'BR_OBJ(%s).%s(%s)' % (cls, tsel or d['name'], ', '.join(args))
+            cretb = cret.replace('const ', '')
+            lines = ['extern "C" %s %s(%s) {' % (('CX(%s)' % cretb) if (cretb in self.records or cretb in self.enums) else cretb, nm, ', '.join(cps)), '    BR_LOAD(self);'] + pre
+            if cretb == 'void':
+                lines += ['    BRIDGE_RUN(%s);' % call, '    BR_STORE(self);', '}']
+            elif cretb.startswith('tuple_'):
+                n = self.rec_fields[cretb][2]
+                lines += ['    CX(%s) r{};' % cretb, '    BRIDGE_RUN(auto t = %s; %s);' % (call, ' '.join('r.e%d = static_cast<decltype(r.e%d)>(std::get<%d>(t));' % (i, i, i) for i in range(n))), '    BR_STORE(self);', '    return r;', '}']
+            elif cretb in self.records and cretb in self.rec_cxx:
+                lines += ['    CX(%s) r{};' % cretb, '    BRIDGE_RUN(auto t = %s; to_c(t, &r));' % call, '    BR_STORE(self);', '    return r;', '}']
+            elif cretb in self.enums:
+                lines += ['    CX(%s) r{};' % cretb, '    BRIDGE_RUN(r = static_cast<CX(%s)>(%s));' % (cretb, call), '    BR_STORE(self);', '    return r;', '}']
+            else:
+                lines += ['    %s r{};' % cretb, '    BRIDGE_RUN(r = %s);' % call, '    BR_STORE(self);', '    return r;', '}']
+            out += lines
+            done.append(nm)
+        with open(path, 'w') as f:
+            f.write('\n'.join(out) + '\n')
+        return done
 
     def meta(self):
         return {'functions': {k: {'cxx': v[0], 'file': v[1], 'line': v[2]} for k, v in self.func_src.items()},
@@ -1649,7 +1742,10 @@ def extract(tu_rel, roots, out_c, opts=None, optional_roots=()):
     bad = {k: v for k, v in t.failed.items() if k in need}
     t.write_c(out_c)
     t.write_bridge(out_c + '_bridge.inc')
+    t.write_eq(out_c + '_eq.h')
     m = t.meta()
+    if (opts or {}).get('wrappers'):
+        m['wrappers'] = t.write_wrappers(out_c + '_wrappers.inc', [x for x in (opts or {}).get('wrappers') if x in t.func_decl] if (opts or {}).get('wrappers') != 'all' else list(t.func_decl))
     m['roots'] = rootnames
     m['failed_required'] = bad
     return t, m
